@@ -110,6 +110,7 @@ package bech32
 //@   loop 2 decreases int(remFromBits)
 
 //@ lemmafunc bech32.lemmaChecksumVerifies
+//@   snapshotinst
 //@   requires forall k :: 0 <= k && k < len(data) ==> data[k] < 32
 //@   opaque bech32.step, bech32.stepb
 //@   bind after bech32Checksum#1: $p = data
